@@ -15,6 +15,7 @@ class Unit:
         self.functions = []      # dict(name, path, line, sha, rules, out_first, out_last)
         self.props = []
         self.trusted = []        # text lines with external_body / assume_specification etc.
+        self.lost = []           # (obligation name, message): extracted functions skipped because one of THEIR anchors is gone (the rest of the unit is still decided)
 
 def _parse_args(s):
     """key=value / key="v w" pairs"""
@@ -132,7 +133,14 @@ def build_unit(name, probe=False):
             if i >= len(tl):
                 raise ExtractError(f'{sf}:{no}: //@extract without //@end')
             i += 1
-            _emit_extracted(u, target, args, block, subst, emit)
+            try:
+                _emit_extracted(u, target, args, block, subst, emit)
+            except ExtractError as e:
+                # a lost anchor concerns THIS function only: it is left out (its obligation is reported undecided) and the other functions of the unit are still decided.
+                # (If something else in the unit calls it, the generated file does not compile and the whole unit is undecided, as before.)
+                if 'lost anchor' not in str(e):
+                    raise
+                u.lost.append((_obl_name(target, args), str(e)))
             continue
         if d == 'slice':
             # expression slicing: copy named statements / call arguments of a real function verbatim (everything else of the
@@ -377,6 +385,16 @@ def rule_R9(body, fired):
             break
         if done:
             return body
+
+def _obl_name(target, args):
+    """the obligation name _emit_extracted would have registered for this block"""
+    relpath, fname = target.split('::', 1)
+    if args.get('impl'):
+        fname = fname + '@' + re.sub(r'[^A-Za-z0-9_]', '', args['impl'].split(' for ')[-1].split('<')[0]) if ' for ' in args['impl'] else fname + '@' + re.sub(r'[^A-Za-z0-9_]+', '_', args['impl'])[:40]
+    if 'tail_after' in args: fname = args.get('as', fname + '__tail')
+    if 'block_in' in args: fname = args.get('as', fname + '__block')
+    if 'only_stmt' in args: fname = args.get('as', fname + '__stmt')
+    return args.get('rename', fname)
 
 def _emit_extracted(u, target, args, block, subst, emit):
     relpath, fname = target.split('::', 1)
@@ -878,6 +896,8 @@ def run_unit(name, outdir, rlimit=None, timeout=900, extra=None):
             undecided.append(rec)
         else:
             failures.append(rec)
+    for nm_, msg_ in getattr(u, 'lost', []):
+        undecided.append(dict(function=nm_, message=msg_, origin=[], text=[], rendered=msg_))
     res['failures'] = failures
     res['undecided'] = undecided
     if failures:
